@@ -31,7 +31,7 @@ import shutil
 
 from ..common import Ctx, setup_repo_path
 from ..replay import diff_states, edge_cover
-from ..tlc import SPECS, FrozenDict, Graph, MachineryError, parse_label, parse_state, run_tlc, scratch_dir
+from ..tlc import SPECS, FrozenDict, Graph, MachineryError, parse_label, parse_value, run_tlc, scratch_dir
 
 PID = "C13"
 ZERO = ("0.0.0.0", 0)
@@ -396,6 +396,42 @@ def _unesc(lbl):
     return lbl.replace("\\n", "\n").replace("\\\\", "\\").replace('\\"', '"')
 
 
+_RE_VARS = re.compile(r"(?:^|\n)\s*/\\ ")
+_PARSED = {}
+
+
+class LazyVars(dict):
+    """variable -> value of one TLC state, every variable parsed on first use; equal texts are parsed once (one step
+    changes few variables, and the values are immutable)."""
+
+    def __init__(self, text):
+        super().__init__()
+        self.raw = {}
+        for part in _RE_VARS.split("\n" + text.strip()):
+            part = part.strip()
+            if part:
+                name, sep, val = part.partition(" = ")
+                if not sep:
+                    name, sep, val = part.partition("=")
+                self.raw[name.strip()] = val
+
+    def __missing__(self, var):
+        text = self.raw[var]
+        val = _PARSED.get(text)
+        if val is None:
+            if len(_PARSED) > 200000:
+                _PARSED.clear()
+            val = _PARSED[text] = parse_value(text)
+        self[var] = val
+        return val
+
+    def __contains__(self, var):
+        return var in self.raw
+
+    def get(self, var, default=None):
+        return self[var] if var in self.raw else default
+
+
 class LazyStates(dict):
     """state id -> variables, parsed from the dot label on first use (parsing dominates otherwise)."""
 
@@ -404,7 +440,7 @@ class LazyStates(dict):
         self.raw = raw
 
     def __missing__(self, sid):
-        st = parse_state(_unesc(self.raw[sid]))
+        st = LazyVars(_unesc(self.raw[sid]))
         self[sid] = st
         return st
 
@@ -1214,12 +1250,15 @@ def run(tier, seed, replay=None):
     ctl_jobs = {"ctl_nopuncture": ("NatWalk.tla", "NatWalk_ctl_nopuncture.cfg", ctl_kw),
                 "ctl_early": ("NatWalk.tla", "NatWalk_ctl_early.cfg", ctl_kw),
                 "ctl_norefresh": ("NatWalk.tla", "NatWalk_ctl_norefresh.cfg", dict(ctl_kw, deadlock_off=True)),
-                "ctl_wideident": ("NatWalk.tla", "NatWalk_ctl_wideident.cfg", ctl_kw),
-                "ctl_svcwalk": ("NatWalk.tla", "NatWalk_ctl_svcwalk.cfg", dict(ctl_kw, deadlock_off=True)),
-                "ctl_style": ("NatWalk.tla", "NatWalk_ctl_style.cfg", dict(ctl_kw, deadlock_off=True))}
-    # candidates with IPv6 neighbours (whom a peer may name in an old-style / a new-style response): model checked here,
-    # bound to the code by the recorded schedules (the code's choice among the eligible peers is random)
-    jobs = {"k1_v6": ("NatWalk.tla", "NatWalk_k1_v6.cfg", dict(mc, java_opts=SMALL_JVM))}
+                "ctl_wideident": ("NatWalk.tla", "NatWalk_ctl_wideident.cfg", ctl_kw)}
+    # started once the long graph (k1) is there, so that they do not slow down the runs the replay waits for:
+    # candidates with IPv6 neighbours (whom a peer may name in an old-style / a new-style response) - model checked here,
+    # bound to the code by the recorded schedules (the code's choice among the eligible peers is random) - and the
+    # negative controls of the several-overlays / IPv6-neighbours parts
+    late_jobs = {"k1_v6": ("NatWalk.tla", "NatWalk_k1_v6.cfg", dict(mc, java_opts=SMALL_JVM)),
+                 "ctl_svcwalk": ("NatWalk.tla", "NatWalk_ctl_svcwalk.cfg", dict(ctl_kw, deadlock_off=True)),
+                 "ctl_style": ("NatWalk.tla", "NatWalk_ctl_style.cfg", dict(ctl_kw, deadlock_off=True))}
+    jobs = {}
     if not quick:
         jobs["k2"] = ("NatWalk.tla", "NatWalk_k2.cfg", dict(mc, timeout=3000))
         jobs["k1_followall"] = ("NatWalk.tla", "NatWalk_k1_all.cfg", dict(mc, timeout=3000))
@@ -1228,10 +1267,9 @@ def run(tier, seed, replay=None):
         jobs["k1_history2"] = ("NatWalk.tla", "NatWalk_k1_hist2.cfg", dict(mc, timeout=3000))
         jobs["ctl_norefresh_addr"] = ("NatWalk.tla", "NatWalk_ctl_norefresh_addr.cfg",
                                       {"deadlock_off": True, "coverage": False})
-    side = multiprocessing.get_context("fork").Pool(len(jobs) + len(ctl_jobs) + 8)
+    side = multiprocessing.get_context("fork").Pool(len(jobs) + len(ctl_jobs) + len(late_jobs) + 8)
     try:
-        dumps = {c: side.apply_async(_dump_job, (c,)) for c in ("NatWalk_k1.cfg", "NatWalk_k1_conc.cfg",
-                                                                "NatWalk_k1_svc.cfg")}
+        dumps = {c: side.apply_async(_dump_job, (c,)) for c in ("NatWalk_k1.cfg", "NatWalk_k1_conc.cfg")}
         pending = {k: side.apply_async(_tlc_job, (v,)) for k, v in jobs.items()}
 
         # ---- T (recording): seeded schedules on real worlds; TLC validates them while the replay runs
@@ -1324,10 +1362,12 @@ def run(tier, seed, replay=None):
             tick("k1_conc replayed")
             d = dumps["NatWalk_k1.cfg"].get()
             tick("k1 graph there")
+            dumps["NatWalk_k1_svc.cfg"] = side.apply_async(_dump_job, ("NatWalk_k1_svc.cfg",))
+            pending.update({k: side.apply_async(_tlc_job, (v,)) for k, v in late_jobs.items()})
             replay_graph(ctx, d, "NatWalk_k1.cfg", "k1", 32000 if quick else None, workers, history=True)
             tick("k1 replayed")
             d = dumps["NatWalk_k1_svc.cfg"].get()
-            replay_graph(ctx, d, "NatWalk_k1_svc.cfg", "k1_svc", 9000 if quick else None, workers, svc=True)
+            replay_graph(ctx, d, "NatWalk_k1_svc.cfg", "k1_svc", None, workers, svc=True)
             tick("k1_svc replayed")
         finally:
             for fut in dumps.values():
